@@ -1,4 +1,5 @@
 import re
+from decimal import Decimal
 
 
 class _RouteFilterExhaust:
@@ -26,12 +27,20 @@ def _rex(conf):
     return conf, f_in, None
 
 
+def _float_out(x):
+    # the float filter accepts positional notation only: never emit an exponent
+    s = repr(float(x))
+    if 'e' in s or 'E' in s:
+        s = format(Decimal(s), 'f')
+    return s
+
+
 class FilterFactory:
     filters = {
         're':    lambda conf: (conf, None, None),
         'rex':   _rex,
         'int':   lambda conf: (r'-?\d+', int, lambda x: str(int(x))),
-        'float': lambda conf: (r'-?\d+(\.\d+)?', float, lambda x: str(float(x))),
+        'float': lambda conf: (r'-?\d+(\.\d+)?', float, _float_out),
         'path':  lambda conf: (f'.+(?={re.escape(conf)})' if conf else '.+$', None, None)
     }
     _filter_cache = {}
